@@ -165,6 +165,26 @@ func (w *c11World) action(f *world.FakeServer, outcome string, t *rapid.T) world
 			}
 		}
 		return world.Action{Kind: "raw", Raw: world.Frame(w.validReply(f, entries).Encode())}
+	case "valid-self-migration":
+		// a migration order that names the CURRENT GCA as the new one (correctly
+		// signed by it, same short id), with every configured server listed as not
+		// banned: nothing migrates, and what the client knows about bans stays
+		var entries []ref.AuthServer
+		for _, k := range w.keys {
+			e := ref.AuthServer{PublicKey: k, Banned: false, Location: "127.0.0.1", TcpPort: 1, UdpPort: w.sink.Port}
+			if fk, ok := w.fakeOf[k]; ok {
+				e.TcpPort = fk.Port
+			}
+			e.Sig = ref.Sign(w.gca, e.SigningBytes())
+			entries = append(entries, e)
+		}
+		r := ref.SyncReply{DeviceKey: w.dev.Pub, Servers: entries, NewGCA: w.gca.Pub, NewShortID: 5}
+		for i := range r.Bitfield {
+			r.Bitfield[i] = 0xff
+		}
+		m := ref.Migration{Equipment: w.dev.Pub, NewGCA: w.gca.Pub, NewShortID: 5, NewServers: entries}
+		r.GCASig = ref.Sign(w.gca, m.SigningBytes())
+		return world.Action{Kind: "raw", Raw: world.Frame(world.SignReply(r, f.Key).Encode())}
 	case "valid-unban-attempt":
 		var entries []ref.AuthServer
 		for _, k := range w.keys {
@@ -178,7 +198,7 @@ func (w *c11World) action(f *world.FakeServer, outcome string, t *rapid.T) world
 	}
 }
 
-var c11Outcomes = []string{"close", "reset", "short-prefix", "short-body", "refusal-byte", "stall-then-close", "len-lt-72", "signed-72-711", "signed-large", "random-bytes", "bad-signature", "stale-timestamp", "wrong-device", "bad-entry", "truncated-entry", "valid-ban-other", "valid-ban-self", "valid-unban-attempt", "valid", "valid"}
+var c11Outcomes = []string{"close", "reset", "short-prefix", "short-body", "refusal-byte", "stall-then-close", "len-lt-72", "signed-72-711", "signed-large", "random-bytes", "bad-signature", "stale-timestamp", "wrong-device", "bad-entry", "truncated-entry", "valid-ban-other", "valid-ban-self", "valid-self-migration", "valid-unban-attempt", "valid", "valid"}
 
 func c11Failing(o string) bool {
 	return !strings.HasPrefix(o, "valid")
